@@ -11,6 +11,12 @@ ERR_TREE = {"t": "error", "op": "", "kids": []}
 TEXT_KINDS = ("tprog", "cdel", "sbad", "utdel", "rxdel", "rxnl")     # programs with holes filled by the specification
 PRE_EXPR = "var a=6,b=3,c=2,p=5,q=2,r=1,x=7,y=1,z=2,k=0;\n"
 PRE_PROG = "var a=1,b=2,c=3,d=4;\n"
+PRE_LPOS = "var a=1,b=2;function f(v){return v;}\n"
+
+
+def all_parens(toks):
+    """marked sequence -> every optional pair written as parentheses"""
+    return ["(" if t in ("(?", "(:") else ")" if t in ("?)", ":)") else t for t in toks]
 
 
 def norm_out(o):
@@ -116,6 +122,13 @@ def run_batch(rep, rng, quick, lo, hi, totals):
             s1 = R.render_holes(c["toks"], {"<L1>": wire.from_units(c["u"]), "<L2>": wire.from_units(c["u2"])})
             add(parse=[s0, s1], mode="prog", evals=[PRE_PROG + s0, PRE_PROG + s1], what="cmt", kind=kd, a=c["a"], toks=c["toks"],
                 u=wire.units(s1), u0=wire.units(s0))
+        elif kd == "lpos":
+            # a literal chosen by the specification as an operand in a bracketed position: base = optional pairs dropped
+            fill = {"<L1>": wire.from_units(c["u"])}
+            s0 = R.render_holes(R.strip_marks(c["toks"]), fill)
+            s1 = R.render_holes(all_parens(c["toks"]), fill)
+            add(parse=[s0, s1], mode="prog", evals=[PRE_LPOS + s0, PRE_LPOS + s1], what="lpos", kind=kd, a=c["a"], toks=c["toks"],
+                u=wire.units(s1), u0=wire.units(s0))
         elif kd == "nctx":
             # a numeric literal spelling chosen by the specification written into a position: base = canonical spelling
             s0 = R.render_holes(c["toks"], {"<L1>": wire.from_units(c["u0"])})
@@ -132,6 +145,7 @@ def run_batch(rep, rng, quick, lo, hi, totals):
     pairs = [c for c in trees if c["a"][0] <= 2]
     triples = [c for c in trees if c["a"][0] > 2]
     chosen = [(c, j) for c in pairs for j in range(1 if quick else 4)]
+    chosen += [(c, j) for c in triples if c["a"][0] == 5 for j in range(2)]       # every member chain
     ntr = 4000 if quick else 10000
     chosen += [(c, 0) for c in (rng.sample(triples, ntr) if len(triples) > ntr else triples)]
     nvar = 0
@@ -188,6 +202,10 @@ def run_batch(rep, rng, quick, lo, hi, totals):
             recs.append(rec(r["id"], "cmt", a=info["a"], toks=info["toks"], u=info["u"], u0=info["u0"],
                             ast0=p0.get("ast", "") if p0["o"] == "tree" else p0["o"], ast1=p1.get("ast", "") if p1["o"] == "tree" else p1["o"],
                             ev0=norm_out(r["evals"][0]), ev1=norm_out(r["evals"][1])))
+        elif w == "lpos":
+            p0, p1 = r["parsed"]
+            recs.append(rec(r["id"], "lpos", a=info["a"], toks=info["toks"], u=info["u"], u0=info["u0"], act0=norm_act(p0), act=norm_act(p1),
+                            ast0=p0.get("ast", ""), ast1=p1.get("ast", ""), ev0=norm_out(r["evals"][0]), ev1=norm_out(r["evals"][1])))
         elif w == "variant":
             recs.append(rec(r["id"], "variant", a=info["a"], toks=info["toks"], lay=info["lay"], act0=norm_act(r["parsed"][0]),
                             act=norm_act(r["parsed"][1]),
